@@ -323,20 +323,23 @@ Section Controller.
         (old, self._update_suspended) = (self._update_suspended, True); yield
         self._update_suspended = old; self._updateIntermediateValues()
       [body] = the assignments made inside the block; [raises] = the block
-      raised after making them (then the two lines after `yield` never run) *)
-  Definition postponed (g : dgraph) (s : cstate) (body : list (nat * V)) (raises : bool) : cstate :=
+      raised after making them (then the two lines after `yield` never run).
+      [fin] = the two lines after `yield` are in a `finally:` clause (the
+      proposed fix); the check reads the current source to decide which
+      variant it faces. *)
+  Definition postponed (fin : bool) (g : dgraph) (s : cstate) (body : list (nat * V)) (raises : bool) : cstate :=
     let old := suspended s in
     let s1 := mk_cstate (values s) (assigned s) (changed s) true in
     let s2 := fold_left (fun s dv => assign g s (fst dv) (snd dv)) body s1 in
-    if raises then s2
+    if raises && negb fin then s2
     else update_pass g (mk_cstate (values s2) (assigned s2) (changed s2) old).
 
   Inductive cop := CAssign (d : nat) (v : V) | CPostponed (body : list (nat * V)) (raises : bool).
 
-  Definition cstep (g : dgraph) (s : cstate) (o : cop) : cstate :=
+  Definition cstep (fin : bool) (g : dgraph) (s : cstate) (o : cop) : cstate :=
     match o with
     | CAssign d v => assign g s d v
-    | CPostponed body raises => postponed g s body raises
+    | CPostponed body raises => postponed fin g s body raises
     end.
 
   (** ParameterController.__init__: update_intermediate_values(self.defns) *)
